@@ -289,6 +289,25 @@ theorem block_comment_ends_at_first_close (s : List Nat) : ∀ (f i p : Nat), i 
           · exact ih (i + 1) p (by omega) h2 hs
     · omega
 
+/-- **SkipWS twice is SkipWS once**: from the position SkipWS stopped at, a second call (same flavour) moves nothing and reports that it
+    skipped nothing — every token function may call it again without losing or re-reading text. -/
+theorem skip_idempotent (s : List Nat) (cr : Bool) (i j : Nat) (m : Bool) (hi : i ≤ s.length) (h : skip s cr i = .ok m j) :
+    skip s cr j = .ok false j := by
+  unfold skip at h
+  have hb := skipWS_stays_in_buffer s cr _ i false m j hi h
+  have hs := skipWS_stops_at_token_start s cr _ i false m j h
+  unfold skip
+  obtain ⟨g, hg⟩ : ∃ g, s.length + 1 - j = g + 1 := ⟨s.length - j, by omega⟩
+  rw [hg]
+  unfold skipWS
+  rcases hs with hend | ⟨h1, h2, h3, h4⟩
+  · have : ¬ j < s.length := by omega
+    simp [this]
+  · by_cases hj : j < s.length
+    · have h1' : ¬ byteAt s j > 126 := by omega
+      simp [hj, h1', h2, h3, h4]
+    · simp [hj]
+
 /-- non-vacuity and a reading aid: blanks, a block comment holding a fake line comment, a line comment up to its line end, then code;
     a byte above 0x7e outside comments is an error, inside a comment it is skipped; an unterminated block comment runs to the end. -/
 theorem skip_examples :
